@@ -251,9 +251,10 @@ Definition on_failure (st : state) (p : out_packet) : result (state * list msg) 
 
 (* ---------------------------------------------------------------------------------------- *)
 (* migrate *)
-Definition migrate (st : state) (new_gas : option N) (nchannels_ok : bool) (balances : list (N * N * N))
+Definition migrate (st : state) (new_gas : option N) (nchannels_ok : bool) (balances : list (N * N * option N))
   : result state :=
-  (* balances: for the single open channel, (channel, key, what the contract actually holds of that token) *)
+  (* balances: for the single open channel, (channel, key, what the contract actually holds of that
+     token; None = the balance query fails: a "cw20:" key whose address is not a token contract) *)
   match ver st with
   | VOtherContract | VNewer | VTooOld => Err
   | v =>
@@ -277,10 +278,11 @@ Definition migrate (st : state) (new_gas : option N) (nchannels_ok : bool) (bala
                     match acc with
                     | None => None
                     | Some s =>
-                        let '(c, k, held) := b in
-                        match get_cs s c k with
-                        | None => Some s
-                        | Some cs =>
+                        let '(c, k, held_o) := b in
+                        match get_cs s c k, held_o with
+                        | None, _ => Some s
+                        | Some _, None => None
+                        | Some cs, Some held =>
                             if held <? outstanding cs then None          (* `balance - outstanding` underflows *)
                             else let diff := held - outstanding cs in
                                  if diff =? 0 then Some s
@@ -351,8 +353,10 @@ Definition paid (ms : list msg) : option (N * N) :=
   match ms with [Payout k _ n _] => Some (k, n) | _ => None end.
 
 (* actual holdings of every key of channel c (what migrate's update_balances queries) *)
-Definition holdings_of_channel (w : world) (c : N) : list (N * N * N) :=
-  map (fun e => (c, snd (fst e), hold w (snd (fst e)))) (filter (fun e => fst (fst e) =? c) (chan_state (w_st w))).
+Definition holdings_of_channel (w : world) (c : N) : list (N * N * option N) :=
+  map (fun e => let k := snd (fst e) in
+                (c, k, if key_is_cw20 k then get ordN (w_hold w) k else Some (hold w k)))
+      (filter (fun e => fst (fst e) =? c) (chan_state (w_st w))).
 
 Definition wstep (w : world) (blk : block) (o : wop) : world :=
   match o with
